@@ -386,6 +386,7 @@ def trim_cases(seed, count, repo_import, ai_mod, pysam, hdr):
     def rand_seq(n):
         return "".join(rng.choice("CGCGAT") for _ in range(n))
 
+    shared_finder = pf.PolyAFinder(16, 0.75)
     for it in range(count):
         out["n"] += 1
         max_fake = rng.choice((0, 20, 40))
@@ -494,6 +495,22 @@ def trim_cases(seed, count, repo_import, ai_mod, pysam, hdr):
                 if v1 != v2:
                     out["viol"].append(("soft-clip-padding-changes-result:" + side, cigar_str(plain_cigar), a.reference_start,
                                         "as is: exons %s tails %s; with 80 padded bases at the %s end: exons %s tails %s" % (v1[0], v1[1], side, v2[0], v2[1]), ""))
+            # ONE finder for all records of a worker, as in the pipeline (one finder per chromosome), and every record under the SAME read name
+            # (primary, secondary and supplementary records of one read follow each other): what it finds for a record depends on that record only
+            if it % 2 == 0:
+                b2 = pysam.AlignedSegment(hdr)
+                b2.query_name = "one_read_name"
+                b2.reference_id = 0
+                b2.reference_start = a.reference_start
+                b2.cigartuples = a.cigartuples
+                b2.query_sequence = a.query_sequence
+                p_shared = shared_finder.detect_polya(b2)
+                p_fresh = pf.PolyAFinder(16, 0.75).detect_polya(a)
+                out["shared_finder_records"] = out.get("shared_finder_records", 0) + 1
+                vs, vf = [getattr(p_shared, nm_) for nm_ in POS_NAMES], [getattr(p_fresh, nm_) for nm_ in POS_NAMES]
+                if vs != vf:
+                    out["viol"].append(("tail-positions-depend-on-the-record-processed-before", cigar_str(cigar), a.reference_start,
+                                        "fresh finder %s" % vf, "finder that processed another record of the same read name before: %s" % vs))
             info = ai_mod.AlignmentInfo(a)
             ex0, rb0, cb0 = list(info.read_exons), list(info.read_blocks), list(info.cigar_blocks)
             inject = rng.random() < 0.35
@@ -690,6 +707,7 @@ def run(chk, scratch):
             trimmed += res.get("trimmed", 0)
             chk.count("hard_clip_pairs_compared", res.get("hard_clip_pairs", 0))
             chk.count("padding_pairs_compared", res.get("padding_pairs", 0))
+            chk.count("records_of_one_read_name_through_one_finder", res.get("shared_finder_records", 0))
             chk.count("padding_pairs_same_side_differs", res.get("padding_same_side_differs", 0))
             chk.count("reads_with_exons_entirely_inside_a_tail", res.get("tail_only_exon_cases", 0))
             for k, v in res.get("classes", {}).items():
